@@ -21,7 +21,7 @@ def main():
     if run(["git", "-C", "/repo", "status", "--porcelain", "--", "src"]).stdout.strip():
         sys.exit("/repo/src is not clean")
     for d in sorted(p for p in root.iterdir() if p.is_dir()):
-        for diff in sorted(d.glob("seed_*.diff")):
+        for diff in sorted(d.glob("*.diff")):
             key = f"{d.name}/{diff.stem}"
             if want and d.name not in want and key not in want:
                 continue
